@@ -301,7 +301,43 @@ def run_case(part, case, rows):
                 break
 
 
+CLASS_RANGES = [(1, 2), (3, 5), (6, 9), (10, 15), (16, 24), (25, 46), (47, 74), (75, 80), (81, 82), (83, 88), (89, 98), (99, 110), (111, 122), (123, 142),
+                (143, 146), (147, 148), (149, 155), (156, 161), (162, 167), (168, 173), (174, 174), (175, 176), (177, 182), (183, 186), (187, 190), (191, 194),
+                (195, 199), (200, 206), (207, 214), (215, 220), (221, 230)]
+
+
+def cross_setting_worker(part, rows_group, seed, rows):
+    """
+    settings that look alike (all choices of one group, all groups of one crystal class) expanded ONE AFTER THE OTHER in one
+    process, in table order and then in reverse: anything remembered from one setting must not leak into the next.  (Which
+    settings share a worker process in the main sweep is decided by the pool; this pass makes the co-location deterministic.)
+    """
+    light = []
+    for row in rows_group:
+        ops = [symm.decode(c) for c in row["symops"]]
+        cell = lattice.compatible_cells(row["number"], row["choice"])[0]
+        N = 24
+        sites = [(1, 5, 9), (7, 2, 11), (0, 0, 0), (12, 12, 12), (6, 18, 3)]
+        # keep only sites whose images do not collide with another site's (exact model)
+        keep, taken = [], set()
+        for st in sites:
+            imgs = set(symm.orbit(ops, st, N))
+            if not (imgs & taken):
+                keep.append(st)
+                taken |= imgs
+        light.append((row, ops, cell, keep))
+    for pass_name, seq in (("forward", light), ("reverse", light[::-1])):
+        for row, ops, cell, sites in seq:
+            case = {"number": row["number"], "choice": row["choice"], "D": 24, "sites": [list(x) for x in sites], "cell": list(cell), "slab": None, "z0": 7,
+                    "variant": "cross-setting:" + pass_name, "group": [[r["number"], r["choice"]] for r in rows_group]}
+            check_crystal(part, row, ops, tuple(cell), sites, 24, case, slab_bounds=None, start_z=7)
+    part.outcome(("cross-setting", len(rows_group)))
+
+
 def worker(part, rows_chunk, tier, seed, rows):
+    if rows_chunk and rows_chunk[0] == "cross-setting":
+        cross_setting_worker(part, rows_chunk[1], seed, rows)
+        return
     for row in rows_chunk:
         for case in plan_for_setting(row, tier, seed):
             run_case(part, case, rows)
@@ -349,7 +385,9 @@ def run(ctx):
     # order settings by cost (number of ops) so that chunks balance
     order = sorted(table, key=lambda r: -len(r["symops"]))
     chunks = [[r] for r in order]
-    ctx.pmap(worker, chunks, tier=ctx.tier, seed=ctx.seed, rows=rows)
+    groups = [("cross-setting", [r for r in table if lo <= r["number"] <= hi]) for lo, hi in CLASS_RANGES]
+    ctx.bounds["cross_setting_groups"] = "%d crystal classes: all settings of a class expanded in one process, forward and in reverse" % len(groups)
+    ctx.pmap(worker, sorted(groups, key=lambda g: -sum(len(r["symops"]) for r in g[1])) + chunks, tier=ctx.tier, seed=ctx.seed, rows=rows)
 
 
 def replay(ctx, case):
@@ -357,5 +395,8 @@ def replay(ctx, case):
     rows = {(r["number"], r["choice"]): r for r in table}
     if case.get("kind") == "apply":
         conformance_apply(ctx, [r for r in table if case["code"] in r["symops"]][:1])
+        return
+    if str(case.get("variant", "")).startswith("cross-setting"):
+        cross_setting_worker(ctx, [rows[(n, ch)] for n, ch in case["group"]], 0, rows)
         return
     run_case(ctx, case, rows)
